@@ -36,6 +36,8 @@ def check(pid, tier):
         base = {"time": "t", "units": "m", "foo": "absent"}
         cases.append({"po": dict(base, grid=pg, mask=pm), "ci": dict(base, grid=cg, mask=cm),
                       "c2": dict(base, grid=cg, mask=cm), "via": "direct", "two": False})
+    from .meta_run import share_cases
+    cases += share_cases()                 # one mask array object shared by producer and consumer
     traces = [t for t in run_cases("meta_run", "run_case", cases) if "harness_error" not in t]
     acc, tot, bad, gen, _ = tlc.validate("Meta_Trace", traces)
     ev.add_traces("Meta_Trace/mask-acceptance", acc, tot, gen)
